@@ -433,13 +433,7 @@ func (in *Interp) conv(fr *Frame, dst, src types.Type, x Value) Value {
 				return Str{b}
 			case *Term: // string(rune)
 				if !x.IsConst() {
-					// fork ascii / non-ascii
-					lim := ts.Const(0x80, int(x.w))
-					if in.condBool(fr, ts.Cmp(OpUlt, x, lim)) {
-						return Str{[]Value{ts.Extract(x, 7, 0)}}
-					}
-					v := in.path.concretize(in, x, fr, "string(rune)")
-					return mkStr(ts, string(rune(v)))
+					return in.encodeRuneSym(fr, x, basicOf(src) != nil && isSigned(basicOf(src)))
 				}
 				sb := basicOf(src)
 				var r rune
@@ -998,4 +992,41 @@ func (in *Interp) mapDelete(fr *Frame, m *Map, k Value) {
 			m.symKeys--
 		}
 	}
+}
+
+// encodeRuneSym is string(r) for a symbolic integer: UTF-8 encoding with the
+// range decided by forks (at most five), bytes built as terms.
+func (in *Interp) encodeRuneSym(fr *Frame, x *Term, signed bool) Value {
+	ts := in.ts
+	// widen to 64 bits
+	var v *Term
+	if signed {
+		v = ts.SExt(x, 64)
+	} else {
+		v = ts.ZExt(x, 64)
+	}
+	c := func(k uint64) *Term { return ts.Const(k, 64) }
+	b := func(t *Term) Value { return ts.Extract(t, 7, 0) }
+	shr := func(t *Term, n uint64) *Term { return ts.Bin(OpLShr, t, c(n)) }
+	or := func(t *Term, k uint64) *Term { return ts.Bin(OpBOr, t, c(k)) }
+	and := func(t *Term, k uint64) *Term { return ts.Bin(OpBAnd, t, c(k)) }
+	runeErr := mkStr(ts, "\uFFFD")
+	if in.condBool(fr, ts.Cmp(OpUlt, v, c(0x80))) {
+		return Str{[]Value{b(v)}}
+	}
+	if in.condBool(fr, ts.Cmp(OpUlt, v, c(0x800))) {
+		return Str{[]Value{b(or(shr(v, 6), 0xC0)), b(or(and(v, 0x3F), 0x80))}}
+	}
+	// invalid: > 0x10FFFF (includes negatives as huge unsigned) or surrogates
+	if in.condBool(fr, ts.Cmp(OpUlt, c(0x10FFFF), v)) {
+		return runeErr
+	}
+	sur := ts.And(ts.Cmp(OpUle, c(0xD800), v), ts.Cmp(OpUle, v, c(0xDFFF)))
+	if in.condBool(fr, sur) {
+		return runeErr
+	}
+	if in.condBool(fr, ts.Cmp(OpUlt, v, c(0x10000))) {
+		return Str{[]Value{b(or(shr(v, 12), 0xE0)), b(or(and(shr(v, 6), 0x3F), 0x80)), b(or(and(v, 0x3F), 0x80))}}
+	}
+	return Str{[]Value{b(or(shr(v, 18), 0xF0)), b(or(and(shr(v, 12), 0x3F), 0x80)), b(or(and(shr(v, 6), 0x3F), 0x80)), b(or(and(v, 0x3F), 0x80))}}
 }
